@@ -10,6 +10,7 @@ import (
 	"strconv"
 	"strings"
 	"testing"
+	"time"
 
 	"github.com/openconfig/gnmi/proto/gnmi"
 	sdcpb "github.com/sdcio/sdc-protos/sdcpb"
@@ -107,6 +108,54 @@ func TestVerifReplayValues(t *testing.T) {
 				}
 			}
 		}()
+	}
+	// a decimal value carries a precision chosen by its sender: neither comparing nor rendering it may take its time
+	for _, c := range []struct {
+		name string
+		f    func() string
+		want string
+	}{
+		{"EqualTypedValues(0 at precision 0, 0 at precision 4294967295)", func() string {
+			return fmt.Sprint(EqualTypedValues(&sdcpb.TypedValue{Value: &sdcpb.TypedValue_DecimalVal{DecimalVal: &sdcpb.Decimal64{Digits: 0, Precision: 0}}},
+				&sdcpb.TypedValue{Value: &sdcpb.TypedValue_DecimalVal{DecimalVal: &sdcpb.Decimal64{Digits: 0, Precision: math.MaxUint32}}}))
+		}, "true"},
+		{"EqualTypedValues(1 at precision 0, 1 at precision 4294967295)", func() string {
+			return fmt.Sprint(EqualTypedValues(&sdcpb.TypedValue{Value: &sdcpb.TypedValue_DecimalVal{DecimalVal: &sdcpb.Decimal64{Digits: 1, Precision: 0}}},
+				&sdcpb.TypedValue{Value: &sdcpb.TypedValue_DecimalVal{DecimalVal: &sdcpb.Decimal64{Digits: 1, Precision: math.MaxUint32}}}))
+		}, "false"},
+		{"TypedValueToString(1 at precision 4294967295)", func() string {
+			return TypedValueToString(&sdcpb.TypedValue{Value: &sdcpb.TypedValue_DecimalVal{DecimalVal: &sdcpb.Decimal64{Digits: 1, Precision: math.MaxUint32}}})
+		}, "1e-4294967295"},
+		{"TypedValueToString(-15 at precision 18)", func() string {
+			return TypedValueToString(&sdcpb.TypedValue{Value: &sdcpb.TypedValue_DecimalVal{DecimalVal: &sdcpb.Decimal64{Digits: -15, Precision: 18}}})
+		}, "-0.000000000000000015"},
+	} {
+		n++
+		done := make(chan string, 1)
+		go func() {
+			defer func() {
+				if r := recover(); r != nil {
+					done <- fmt.Sprintf("panic: %v", r)
+				}
+			}()
+			done <- c.f()
+		}()
+		fns := []string{fnEq, "utils.equalDecimal64", "utils.scaleDecimal64"}
+		if strings.HasPrefix(c.name, "TypedValueToString") {
+			fns = []string{"utils.TypedValueToString"}
+		}
+		select {
+		case got := <-done:
+			if got != c.want {
+				for _, f := range fns {
+					fmt.Printf("REPLAY-FAIL fn=%s clause=decimal_kind input=%s why=result %s, expected %s\n", f, c.name, got, c.want)
+				}
+			}
+		case <-time.After(3 * time.Second):
+			for _, f := range fns {
+				fmt.Printf("REPLAY-FAIL fn=%s clause=hang input=%s why=no result after 3 s\n", f, c.name)
+			}
+		}
 	}
 	fmt.Printf("REPLAY-CASES fn=%s n=%d\n", fnEq, n)
 	// TypedValueToString on integer boundaries
